@@ -217,13 +217,12 @@ pub fn c03(tier: Tier) -> i32 {
     };
     let out = run_nat(f_c03, cap(&tier), &|sink| {
         s7_control(&plan, sink);
-        s8_stack_single(&plan, sink);
         if plan.tier.is_thorough() {
             s1p_all_signatures(&plan, Scope::AllDirect, sink);
         }
     });
     run.findings.merge(out.findings.clone());
-    nat_evidence(&mut run, &census, &out, &["S0", "S7", "S8a(rip only)"]);
+    nat_evidence(&mut run, &census, &out, &["S0", "S7"]);
     generic_guards(&mut run, &out, 10_000);
     // every conditional branch observed both taken and not taken
     let mut bad = vec![];
